@@ -1,5 +1,6 @@
 import Compass.Drv.C09
 import Compass.Drv.Search
+import Compass.Drv.C15
 
 /-- `driver <prop>`: reads one case per line on stdin, prints the model's canonical output line -/
 partial def loop (h : IO.FS.Stream) (out : IO.FS.Stream) (f : String → String) : IO Unit := do
@@ -20,6 +21,7 @@ def dispatch : String → Option (String → String)
   | "C04" => some Compass.Drv.Search.run
   | "C05" => some Compass.Drv.Search.run
   | "C10" => some Compass.Drv.Search.run
+  | "C15" => some Compass.Drv.C15.run
   | _ => none
 
 def main (args : List String) : IO UInt32 := do
